@@ -46,6 +46,10 @@ type CleanCase struct {
 	// FullStdout: standard output is /dev/full: spok cannot report what it removes; what it removes
 	// (everything designated, or, if it gives up, nothing else) is unaffected by that
 	FullStdout bool `json:"full_stdout,omitempty"`
+	// Extra: names of defined tasks given on the command line along with --clean, after it or (ExtraFirst)
+	// in front of it. --clean is still what was asked for.
+	Extra      []string `json:"extra,omitempty"`
+	ExtraFirst bool     `json:"extra_first,omitempty"`
 }
 
 var cleanDepPool = []string{"build/*.o", "**/*.tmp", "src/main.c", "bin/app", "dist/**/*.js", "*.tmp", "b*/*", "README.md", "a/b/c.out"}
@@ -116,6 +120,10 @@ func genCleanBody(t *rapid.T) CleanCase {
 	c.FullStdout = rapid.IntRange(0, 7).Draw(t, "full_stdout") == 0
 	if rapid.IntRange(0, 2).Draw(t, "with_deps") == 0 {
 		c.Deps = rapid.SliceOfN(rapid.SampledFrom(cleanDepPool), 1, 3).Draw(t, "deps")
+	}
+	if rapid.IntRange(0, 4).Draw(t, "with_task_names") == 0 {
+		c.Extra = rapid.SliceOfN(rapid.SampledFrom(cleanTaskNames[:c.NTasks]), 1, 2).Draw(t, "extra")
+		c.ExtraFirst = rapid.Bool().Draw(t, "extra_first")
 	}
 	return c
 }
@@ -276,7 +284,11 @@ func execClean(s *ev.Shard, b *sandbox.Box, c CleanCase) *rp.Fail {
 		return &rp.Fail{Sig: "harness", Msg: err.Error()}
 	}
 	b.FullStdout = c.FullStdout
-	res := b.Run(b.Proj, []string{"LOG=" + logPath}, runTimeout, "--clean")
+	cleanArgs := append([]string{"--clean"}, c.Extra...)
+	if c.ExtraFirst {
+		cleanArgs = append(append([]string(nil), c.Extra...), "--clean")
+	}
+	res := b.Run(b.Proj, []string{"LOG=" + logPath}, runTimeout, cleanArgs...)
 	if res.TimedOut {
 		return &rp.Fail{Sig: "harness", Msg: "spok --clean timed out"}
 	}
@@ -284,7 +296,7 @@ func execClean(s *ev.Shard, b *sandbox.Box, c CleanCase) *rp.Fail {
 	if err != nil {
 		return &rp.Fail{Sig: "harness", Msg: err.Error()}
 	}
-	desc := fmt.Sprintf("project tree %v, spokfile:\n%s`spok --clean` (exit %d, stderr %q)", c.Tree, src, res.Exit, strings.TrimSpace(sandbox.Strip(res.Stderr)))
+	desc := fmt.Sprintf("project tree %v, spokfile:\n%s`spok %s` (exit %d, stderr %q)", c.Tree, src, strings.Join(cleanArgs, " "), res.Exit, strings.TrimSpace(sandbox.Strip(res.Stderr)))
 	changes := sandbox.Diff(before, after)
 
 	// 1. the project, its ancestors and the spokfile always survive
